@@ -90,6 +90,12 @@ CHECKS = {
          '15 600 (quick) / 230 000 (thorough) rendered start tags: an exhaustive layer over <=2 static attributes (double / single quoted, unquoted, valueless) x <=2 statement entries over three names (one boolean) x all nine value classes, and a random layer with up to 5 statics (also interpolated, also unquoted-interpolated, mixed case), up to 4 entries (named in either case, repeated in another case, new names, up to two dictionary entries with overlapping / new / boolean / None-valued keys) under four boolean configurations (HTML default set, XML declaration, explicit set, empty set).',
          'Trusted: the 70-line merged-list model; the position of a name supplied by a dictionary and the quote style of a dynamic value that replaces an unquoted / valueless static are compared loosely (the statement does not fix them); exclusions in the evidence rule.',
          'DESIGN.md §3 C07'),
+ 'C04': ('model-diff+event-log',
+         'runtime history checking: TALES expression trees over unique-id recording callables at every statement and ${} site, rendered by the real engine; (output | exception class, evaluation log) compared with the reference model; differential against Python eval for the Python sub-grammar',
+         'exploration',
+         '5 760 (quick) / 120 000 (thorough) executed (program, binding table) pairs with pipes of length 1..4 (alternatives raising each of nine fall-through and seven propagating exception classes, attribute/item fallback objects, undefined names), prefix nestings (not:, exists:, string:, python:, structure:, import:) at define / condition / repeat / switch / case / content / replace / omit-tag / attributes / ${} sites; ~6 500 observed fall-throughs, ~1 200 propagations and ~16 000 watched dead expressions per quick run; 2 400 / 48 000 generated Python expressions (comprehensions, lambdas, f-strings, shadowed builtins) compared with eval.',
+         'Trusted: reference model vlib/tmodel.py (TALES part: 150 lines); the order of the expressions of one start tag is compared as a multiset, and when one of them fails the evaluation log is not compared (DESIGN §2.3).',
+         'DESIGN.md §3 C04'),
 }
 NOT_YET = {}
 
